@@ -136,8 +136,10 @@ def check_C15(chk):
         chk.violation("figures-reset", "a test that runs after the setting was changed starts with %s significant figures, not 8" % d, {"case": "D"})
 
     res = {}
-    for c, o, m in zip(cases, impl, model):
+    for c, o, m, ab in zip(cases, impl, model, accb):
         chk.case(c)
+        tval = dbl(ab)                       # the tolerance value this comparison is handed (what accuracy() returns)
+        T = Fraction(tval) if math.isfinite(tval) else None
         chk.count("kind:%s:figs%d" % (c[0], c[1]))
         chk.cov["disagreements_checked"] += 1
         x, y = dbl(c[2]), dbl(c[3])
@@ -160,6 +162,13 @@ def check_C15(chk):
                 excess = float(D / bound - 1) if bound else float("inf")
                 sig = "upper-bound-ulp-excess" if excess < 2.0 ** -44 else "upper-bound"
                 chk.violation(sig, "%r and %r are accepted as equal at %d figures although they differ by more than max*10^(1-n) (relative excess %.3g)" % (x, y, c[1], excess), dict(rp, excess=excess))
+            # against the tolerance value itself (theorems C15_accepted_within_tolerance / C15_within_tolerance_accepted): exact
+            if T is not None and T >= 0:
+                if r == "1" and not (D < max(abs_tol, T)):
+                    chk.violation("accepted-beyond-tolerance-value", "%r and %r are accepted as equal at %d figures although |x-y| is not below the tolerance value %r the comparison was handed (nor below the absolute tolerance)" % (x, y, c[1], tval), dict(rp, tolerance_value=repr(tval)))
+                below = Fraction(nxt(tval, -1)) if tval > 0 else None
+                if r == "0" and below is not None and D <= below:
+                    chk.violation("within-tolerance-value-rejected", "%r and %r are not accepted as equal at %d figures although |x-y| is at most the double just below the tolerance value %r" % (x, y, c[1], tval), dict(rp, tolerance_value=repr(tval)))
             if r == "0" and D < bound / 10:
                 chk.violation("lower-bound", "%r and %r differ by less than max*10^(-n) at n=%d figures but are not accepted as equal" % (x, y, c[1]), rp)
         else:
@@ -174,6 +183,9 @@ def check_C15(chk):
             out_by = (A - E) if c[0] == "L" else (E - A)
             if strictly and o[0] != "1":
                 chk.violation("order-strict", "actual %r is strictly %s expected %r but is_%s_than_double fails at %d figures" % (y, "below" if c[0] == "L" else "above", x, "less" if c[0] == "L" else "greater", c[1]), rp)
+            if T is not None and T >= 0 and o[0] == "1" and not (out_by < T):
+                chk.violation("order-beyond-tolerance-value", "actual %r is accepted as %s than %r at %d figures although it is out of order by the tolerance value %r or more" % (
+                    y, "less" if c[0] == "L" else "greater", x, c[1], tval), dict(rp, tolerance_value=repr(tval)))
             if o[0] == "1" and out_by > tol:
                 excess = float(out_by / tol - 1) if tol else float("inf")
                 chk.violation("order-tolerance-ulp-excess" if excess < 2.0 ** -44 else "order-tolerance", "actual %r is accepted as %s than %r at %d figures although it is out of order by more than the tolerance (relative excess %.3g)" % (
